@@ -296,6 +296,67 @@ fn flaky(rep: &mut Report, rng: &mut Rng, idx: u64) {
     }
 }
 
+/// An encoder that writes part of some records and then reports an error (an I/O error half-way, a
+/// `Display` that fails): the bytes it did write are in the file, and the policy must be shown them.
+#[derive(Debug)]
+struct FailingEnc {
+    fail_every: u64,
+    calls: std::sync::atomic::AtomicU64,
+}
+
+impl log4rs::encode::Encode for FailingEnc {
+    fn encode(&self, w: &mut dyn log4rs::encode::Write, record: &log::Record) -> anyhow::Result<()> {
+        let s = record.args().to_string();
+        let n = self.calls.fetch_add(1, std::sync::atomic::Ordering::Relaxed);
+        if n % self.fail_every == self.fail_every - 1 {
+            w.write_all(&s.as_bytes()[..s.len() / 2])?;
+            anyhow::bail!("scripted encoder failure after half of the record");
+        }
+        w.write_all(s.as_bytes())?;
+        Ok(())
+    }
+}
+
+fn failing_encoder(rep: &mut Report, rng: &mut Rng, idx: u64) {
+    use log4rs::append::rolling_file::policy::compound::trigger::size::SizeTrigger;
+    let sc = Scratch::new("c06e");
+    let limit = *rng.pick(&[50u64, 200, 1024, 1500]);
+    let log: std::sync::Arc<std::sync::Mutex<Vec<crate::rolling::Decision>>> = Default::default();
+    let trig = crate::rolling::RecTrigger { inner: Box::new(SizeTrigger::new(limit)), log: log.clone() };
+    let enc = FailingEnc { fail_every: 2 + rng.below(4), calls: Default::default() };
+    let app = match crate::rolling::build_appender(&sc.path, true, Box::new(enc), Box::new(trig),
+        Box::new(log4rs::append::rolling_file::policy::compound::roll::delete::DeleteRoller::new())) {
+        Ok(a) => a,
+        Err(e) => {
+            rep.inconclusive(&format!("cannot build a rolling appender: {}", e));
+            return;
+        }
+    };
+    let n = 5 + rng.usize_below(40);
+    let mut failed = 0;
+    for seq in 0..n as u32 {
+        let len = *rng.pick(&[0usize, 10, 40, 300, 1100]);
+        let a = crate::c04::append_frame(&app, 1, seq, len, true);
+        if let Some(p) = crate::c04::take_panic() {
+            rep.violation("C06:panic:append", json!({"limit": limit, "panic": p}));
+            return;
+        }
+        if !a.ok {
+            failed += 1;
+        }
+    }
+    rep.case(&format!("failing-encoder|{}|{}|{}", limit, n, idx), true);
+    rep.count("appends_whose_encoder_failed_half_way", failed);
+    for (k, d) in log.lock().unwrap().iter().enumerate() {
+        rep.count("policy_consultations_observed", 1);
+        if Some(d.len_estimate) != d.disk_len {
+            rep.violation("C06:size-estimate-differs-from-disk:after-a-failed-encode", json!({"limit": limit, "appends": n,
+                "appends_that_failed": failed, "what": format!("consultation #{}: len_estimate() = {}, true on-disk size = {:?}", k + 1, d.len_estimate, d.disk_len)}));
+            return;
+        }
+    }
+}
+
 pub fn run(rep: &mut Report) {
     crate::hooks::install();
     rep.rule = "histories of 3-58 operations on a rolling appender with the real SizeTrigger (limits 0,1,2, around the frame size, \
@@ -309,6 +370,7 @@ pub fn run(rep: &mut Report) {
     run_cases(rep, "history", n, history);
     run_cases(rep, "flaky", if rep.tier == "thorough" { 4_000 } else { 400 }, flaky);
     run_cases(rep, "symlinked", if rep.tier == "thorough" { 1_000 } else { 100 }, symlinked);
+    run_cases(rep, "failing-encoder", if rep.tier == "thorough" { 2_000 } else { 200 }, failing_encoder);
     let saved = std::env::var("L4V_JOBS").ok();
     std::env::set_var("L4V_JOBS", "3");
     run_cases(rep, "concurrent", if rep.tier == "thorough" { 300 } else { 30 }, concurrent);
